@@ -337,9 +337,9 @@ def realise(a, geom, rng, min_qual=30, max_qual=40, plain=False, allow_clips=Tru
     ref = geom.ref
     qname, rg, mapq = a["qname"], a.get("rg"), a["mapq"]
 
-    if "unmapped" in flags:
-        # placed unmapped read (as aligners emit for the unmapped mate of a pair)
-        assert all(c is None for c in cells)
+    if "unmapped" in flags and all(c is None for c in cells):
+        # placed unmapped read (as aligners emit for the unmapped mate of a pair); an "unmapped" record
+        # with calls is realised below as a record that carries flag 0x4 together with a CIGAR
         ln = rng.randint(6, 12)
         pos = rng.randint(geom.start, geom.stop - 1)
         seq = _rand_seq(rng, ln)
